@@ -344,6 +344,7 @@ class Net:
         self.taps = []             # fn(kind, sock, parts, extra)
         self.events = []           # compact log of network events (for reports and digest)
         self.keep_events = False
+        self.last_change_ns = 0    # virtual time of the last connection established / broken
         self.fail_next = {}        # proc -> 'send' | 'recv': the next such socket call of that process raises
 
     def _next_sid(self):
@@ -423,6 +424,7 @@ class Net:
         sock.pipes.append(pipe)
         lst.pipes.append(pipe)
         self.stats['pipes_established'] += 1
+        self.last_change_ns = self.sched.now
         self.log('pipe', pipe.pid, sock.sid, lst.sid)
         if sock.type == SUB and sock.subscriptions:
             self._send_ctrl(pipe, list(sock.subscriptions))     # one atomic batch
@@ -442,6 +444,7 @@ class Net:
             return
         pipe.alive = False
         pipe.cut = pipe.cut or cut
+        self.last_change_ns = self.sched.now
         self.log('break', pipe.pid, by.sid if by is not None else None, cut)
         a, b = pipe.a, pipe.b
         for s in (a, b):
@@ -578,6 +581,19 @@ class Net:
             pipe.extra_ab = (t_from, t_to, extra_ns)
         else:
             pipe.extra_ba = (t_from, t_to, extra_ns)
+
+    def pending_connections(self):
+        """Connect-side sockets whose listener exists but whose connection is not established yet."""
+        n = 0
+        for s in self.sockets:
+            if not s.live:
+                continue
+            for c in s.connectors:
+                if c.pipe is None:
+                    lst = self.endpoints.get(c.key)
+                    if lst is not None and lst.live:
+                        n += 1
+        return n
 
     # -- census -------------------------------------------------------------------------------------------------------
 
